@@ -82,12 +82,38 @@ def gen_feature(rng, small):
         big = max(rng.randrange(200, 1500), min(1499, int(n * 1.6)))
         cx, cy = rng.randrange(big + 5, 4090 - big), rng.randrange(big + 5, 4090 - big)
         rings = [star(rng, cx, cy, 0.6 * big, big, n, rng.random() < 0.5)]
+        depth = [0]
         for h in range(holes):
             a = 2 * math.pi * h / 3 + 0.4
             hx, hy = cx + 0.3 * big * math.cos(a), cy + 0.3 * big * math.sin(a)
             rings.append(star(rng, hx, hy, 0.08 * big, 0.12 * big, rng.choice([3, 4, 5, 8]), rng.random() < 0.5))
+            depth.append(1)
+            if rng.random() < 0.3:
+                # an island inside the hole (and now and then a pond on the island): exterior ring again.  Each ring
+                # stays inside the largest disc around the centre that fits into the ring around it
+                room = clearance(rings[-1], hx, hy)
+                if room >= 8:
+                    rings.append(star(rng, hx, hy, 0.5 * room, 0.8 * room, rng.choice([3, 4, 5]), rng.random() < 0.5))
+                    depth.append(2)
+                    room = clearance(rings[-1], hx, hy)
+                    if rng.random() < 0.4 and room >= 8:
+                        rings.append(star(rng, hx, hy, 0.5 * room, 0.8 * room, 3, rng.random() < 0.5))
+                        depth.append(3)
         f["rings"] = rings
+        f["depth"] = depth
     return f
+
+
+def clearance(ring, cx, cy):
+    """distance from (cx, cy) to the nearest edge of the ring"""
+    best = float("inf")
+    n = len(ring)
+    for i in range(n):
+        (x1, y1), (x2, y2) = ring[i], ring[(i + 1) % n]
+        dx, dy = x2 - x1, y2 - y1
+        t = max(0.0, min(1.0, ((cx - x1) * dx + (cy - y1) * dy) / float(dx * dx + dy * dy)))
+        best = min(best, math.hypot(cx - (x1 + t * dx), cy - (y1 + t * dy)))
+    return best - 1.0      # vertices are rounded to integers
 
 
 def gen_tile(rng, small):
@@ -232,7 +258,7 @@ def run(ctx):
         rule="(a) every single-geometry input enumerated by TLC from TileCmd.tla (points, 2-3 vertex lines, non-degenerate "
              "triangles over a 3-4 point grid incl. negative and zero deltas) encoded by renderer.EncodeTile and decoded; "
              "(b) seeded tiles (zoom 10-18, 1-3 layers, 0-4 features each: points, lines of 2..999 vertices incl. repeated "
-             "vertices, star-shaped polygons of 3..1000 vertices with 0-3 holes, either input orientation, 0-4 string tags, "
+             "vertices, star-shaped polygons of 3..1000 vertices with 0-3 holes, islands inside holes (nesting depth up to 3), either input orientation, 0-4 string tags, "
              "optional id); (c) Encoder.Tag sequences with string/int/int64 values. Every feature is decoded by the Go decoder "
              "and compared with the projected rings, windings and tags; a seeded subset (rings <= 24 vertices) is validated by "
              "TLC. distinct = distinct (kind, ring lengths, tag count) signatures + distinct TLC inputs + distinct tag-op shapes.",
